@@ -145,14 +145,14 @@ def sensitivity(argv):
         with open(meta) as f:
             m = json.load(f)
         items.append((os.path.basename(os.path.dirname(meta)), m['property'], os.path.join(os.path.dirname(meta), 'patch.diff'),
-                      m.get('also', [])))
+                      m.get('also', []), m.get('expected', 'caught')))
     for patch in sorted(glob.glob(os.path.join(HERE, 'mutants', '*.patch'))):
         name = os.path.basename(patch)[:-6]
         prop = name.split('-')[0]
-        items.append((name, prop, patch, []))
+        items.append((name, prop, patch, [], 'caught'))
     report = {}
     missed = 0
-    for name, prop, patch, also in items:
+    for name, prop, patch, also, expected in items:
         if a.only and a.only not in name:
             continue
         d = _scratch_copy()
@@ -180,10 +180,15 @@ def sensitivity(argv):
                 if q.returncode == 1 and viol:
                     caught_by.append(pr)
             ok = prop in caught_by
-            if not ok:
+            as_expected = ok if expected == 'caught' else (
+                (not ok and any(a in caught_by for a in also)) if expected == 'caught_by_also' else not ok)
+            if not as_expected:
                 missed += 1
-            report[name] = {'property': prop, 'applied': True, 'caught': ok, 'caught_by': caught_by, 'detail': detail}
-            print('sensitivity %-44s %s  %s' % (name, 'CAUGHT' if ok else 'MISSED', json.dumps(detail)[:260]))
+            report[name] = {'property': prop, 'applied': True, 'caught': ok, 'caught_by': caught_by, 'expected': expected,
+                            'as_expected': as_expected, 'detail': detail}
+            print('sensitivity %-44s %s%s  %s' % (name, 'CAUGHT' if ok else 'MISSED',
+                                                  '' if expected == 'caught' else ' (expected: %s)' % expected,
+                                                  json.dumps(detail)[:260]))
         finally:
             shutil.rmtree(d, ignore_errors=True)
     with open(os.path.join(HERE, 'evidence', 'sensitivity.json'), 'w') as f:
